@@ -337,7 +337,7 @@ func cmdCheck(args []string) {
 	// (whose names contain source text and so change with harmless edits) by a minimum count.
 	provCount := 0
 	for _, o := range res.Obls {
-		if o.Backend == "provenance" {
+		if o.Backend == "provenance" || volatileName(o.Name) {
 			provCount++
 		}
 	}
@@ -369,7 +369,7 @@ func cmdCheck(args []string) {
 	if *writeExpected {
 		var ns []string
 		for _, o := range res.Obls {
-			if o.Backend != "provenance" || strings.Contains(o.Name, "#fresh@") {
+			if (o.Backend != "provenance" && !volatileName(o.Name)) || strings.Contains(o.Name, "#fresh@") {
 				ns = append(ns, o.Name)
 			}
 		}
@@ -451,6 +451,17 @@ func cmdCheck(args []string) {
 	if len(violations) > 0 {
 		os.Exit(1)
 	}
+}
+
+// volatileName: structural obligations named after a source line (their names change with harmless edits of that
+// line); they are guarded by count, not by name.
+func volatileName(n string) bool {
+	for _, p := range []string{"syntax#bash-implies-bats@Parser", "syntax#bash-implies-bats@", "syntax#bats-only@", "syntax#recovery-only-on-error@Parser", "syntax#recovery-state@"} {
+		if strings.HasPrefix(n, p) && !strings.HasSuffix(n, "-found") {
+			return true
+		}
+	}
+	return false
 }
 
 func modelInputs(m map[string]string) map[string]string {
